@@ -43,7 +43,7 @@ pub fn info() -> PropInfo {
     PropInfo {
         id: "C18",
         level: "exploration",
-        rule: "Stream `rand`: seeded C11 models (1-4 units, every attribute kind, expressions, range/location lists incl. shared ones, line programs, string pools; see C11) generated with symbolic addresses (8 symbols; Address::Symbol in attributes, DW_OP_addr, list bases/starts, line sequence starts) plus a frame table (1-2 CIEs: .debug_frame versions 1/3/4 and .eh_frame version 1 with absptr / pcrel|sdata4 / udata4 FDE encodings, optional personality and LSDA; 1-3 FDEs with symbolic or constant addresses and a few instructions) x versions 2-5 x formats x address sizes x byte orders x Dwarf::write / DwarfUnit::write. Stream `cat`: the C11 catalogue (64 encodings x every attribute variant x 4 payloads). Each case is written directly (constants, EndianVec) and through a recording RelocateWriter (symbols); the recorded relocations are applied with the model's symbol values (section bases 0) and the bytes compared per section; the recorded relocation set is compared with the model's relocatable fields; then the recorded bytes are parsed through RelocateReader with (a) the recorded map, (b) a map with unique perturbations of every symbol relocation, (c) a map with unique perturbations of every symbol relocation and every .debug_str/.debug_line_str/.debug_info/.debug_macinfo/.debug_macro offset (offsets that select abbreviations, line programs, lists and CIEs are kept, because shifting them changes which bytes are parsed as relocatable fields), and compared with a plain parse of the pre-applied bytes by a walker generic over the reader type. A case is non-trivial when at least one relocation is recorded besides the unit header's abbreviation offset; distinct cases are counted by a digest of the case description.",
+        rule: "Stream `rand`: seeded C11 models (1-4 units, every attribute kind, expressions, range/location lists incl. shared ones, line programs, string pools; see C11) generated with symbolic addresses (8 symbols; Address::Symbol in attributes, DW_OP_addr, list bases/starts, line sequence starts) plus a frame table (1-2 CIEs: .debug_frame versions 1/3/4 and .eh_frame version 1 with absptr / pcrel|sdata4 / udata4 FDE encodings, optional personality and LSDA; 1-3 FDEs with symbolic or constant addresses and a few instructions) x versions 2-5 x formats x address sizes x byte orders x Dwarf::write / DwarfUnit::write. Stream `cat`: the C11 catalogue (64 encodings x every attribute variant x 4 payloads). Each case is written directly (constants, EndianVec) and through a recording RelocateWriter (symbols); the recorded relocations are applied with the model's symbol values (section bases 0) and the bytes compared per section; the recorded relocation set is compared with the model's relocatable fields; then the recorded bytes are parsed through RelocateReader with (a) the recorded map, (b) a map with unique perturbations of every symbol relocation, (c) a map with unique perturbations of every symbol relocation and every .debug_str/.debug_line_str/.debug_info/.debug_macinfo/.debug_macro offset (offsets that select abbreviations, line programs, lists and CIEs are kept, because shifting them changes which bytes are parsed as relocatable fields), and compared with a plain parse of the pre-applied bytes by a walker generic over the reader type. A case is non-trivial when at least one relocation is recorded besides the unit header's abbreviation offset; distinct cases are counted by a digest of the case description. Hand-assembled reading side (props/c18_asm.rs; encodings gimli::write never emits): stream `asm.cat` = for each of the 64 encodings one .debug_abbrev/.debug_info/.debug_types image built with gen::info (3-4 units: compile/type(.debug_types before v5)/skeleton/split-type headers) carrying every catalogue pair (attribute name, final form) - DWARF 2/3: the 12 loclistptr/lineptr/macptr/rangelistptr names x {data4, data8}; DWARF 4/5: 22 section-offset names (stmt_list, ranges, location, macro_info, macros, str_offsets_base, addr_base, rnglists_base, loclists_base, frame_base, data_member_location, GNU_macros, GNU_ranges_base, GNU_addr_base, GNU_locviews, ...) x sec_offset plus data4/data8 under 4 of them; all versions: strp, addr, ref_addr, ref1/2/4/8/udata, ref_sig8, data1/2/4/8, udata, sdata, string, flag, block1/block/exprloc ending in DW_OP_addr; v4+: line_strp, strp_sup, GNU_strp_alt, GNU_ref_alt, ref_sup4/8, strx/strx1-4, addrx/addrx1-4, GNU_str_index, GNU_addr_index, rnglistx, loclistx, data16 - each declared directly, through DW_FORM_indirect and through DW_FORM_indirect twice; stream `asm.rand` = seeded random subsets/orders/indirect depths 0-3/values/unit kinds. A model written from the DWARF class tables classifies every field as cross-section offset (width), address, certainly-not-relocatable, or neutral; every offset/address field and every unit header's debug_abbrev_offset gets a unique non-zero addend (the abbreviation table sits behind 96 filler bytes and the raw header field is lowered by its addend so the relocated value selects the table); RelocateReader(raw bytes, {site -> addend}) and a plain reader over the copy with the addends added into the bytes (wrapping to the field width) are walked by one generic walker (unit header fields, entries_raw, raw_value(), value(), expression operations) and must render identically; every site must have been passed to relocate_address resp. relocate_offset exactly at its offset; a hook call inside a certainly-not-relocatable field is a violation; calls elsewhere are listed (asm.passthrough). Stream `asm.tables` = seeded DWARF 5 images (2 byte orders x 2 formats x 4 address sizes) assembled with crate::asm: root DIE with str_offsets_base/addr_base/rnglists_base/loclists_base, children with strx*/addrx*/rnglistx/loclistx (or sec_offset list references), .debug_str_offsets/.debug_addr/.debug_rnglists/.debug_loclists tables behind filler (bases and string offsets lowered by their addends), lists with base_addressx/startx_endx/startx_length/offset_pair/base_address/start_end/start_length entries and DW_OP_addr location descriptions, .debug_aranges sets and .debug_pubnames/.debug_pubtypes sets; sites = the four bases, list sec_offsets, every string-offset entry, every .debug_addr entry, inline list addresses, DW_OP_addr operands, arange addresses and the aranges/pubnames/pubtypes debug_info offsets; walked through Dwarf::unit/attr_string/attr_address/attr_ranges/attr_locations, DebugAranges::headers/entries and DebugPubNames/DebugPubTypes::items with the same equality and visited-site requirements. Every hand-assembled image is one evaluation, non-trivial when it has a site besides the header fields, distinct by digest of (description, raw bytes).",
         assumptions: &[
             "relocations are applied RELA-style: field := (symbol or section value + addend [- field offset for pcrel]) truncated to the field size; section base values are 0 for the byte comparison with the direct write",
             "calls to relocate_address/relocate_offset at offsets without a relocation pass the value through and are only counted (passthrough.*)",
@@ -52,6 +52,9 @@ pub fn info() -> PropInfo {
             "raw byte views (Reader::to_slice of a block / expression / location description) cannot be relocated by construction; the walker renders expressions operation by operation (where DW_OP_addr goes through read_address) and prints raw bytes only for pure data blocks and strings",
             ".debug_frame CIE pointers are recorded as relocations by the writer but read with read_u32/read_u64 (reported as a finding); while KNOWN_DEBUG_FRAME_CIE_POINTER_NOT_RELOCATED is set the .debug_frame part of the reading comparison is judged only when all those relocations have the value 0",
             "perturbed section offsets make the parse fail or read other data; only equality of the two parses (including errors) is judged",
+            "hand-assembled streams: which fields are relocatable is decided by the DWARF class tables: DW_FORM_data4 (32-bit) / data8 (64-bit) is a section offset only in version 2-3 units under a loclistptr/lineptr/macptr/rangelistptr attribute name; the same forms under such names in version >= 4 units, the other width, DW_FORM_GNU_ref_alt, the entries of the .debug_rnglists/.debug_loclists offset tables (relative to the table), arange lengths and pubnames DIE offsets carry no addend and hook calls there are only listed (asm.passthrough*, asm.neutral)",
+            "hand-assembled streams: DW_FORM_strp_sup / DW_FORM_GNU_strp_alt count as cross-section offsets (into the supplementary file's .debug_str), DW_FORM_ref_sup4/8 do not (fixed width independent of the offset size); DW_FORM_ref_addr is address-sized in version 2 and offset-sized from version 3",
+            "hand-assembled streams: offsets that select other data (debug_abbrev_offset, the four *_base attributes, string offsets, list sec_offsets) get small addends and a raw value lowered by the addend so that the relocated value stays valid; values that are only reported (stmt_list, macro offsets, strp, ref_addr, addresses ...) get arbitrary unique addends, 8-byte fields also addends with high bits; the visited-site requirement is judged only when the pre-applied parse reports no error",
         ],
         exhaustive_subspaces: &["64 encodings x 40 attribute value variants x 4 payload variants (stream `cat`)"],
         must_observe: &[
@@ -61,10 +64,15 @@ pub fn info() -> PropInfo {
             "in..debug_info", "in..debug_line", "in..debug_ranges", "in..debug_rnglists", "in..debug_loc", "in..debug_loclists", "in..debug_frame", "in..eh_frame",
             "ver.2", "ver.3", "ver.4", "ver.5", "addr.1", "addr.2", "addr.4", "addr.8", "fmt.32", "fmt.64", "endian.le", "endian.be",
             "read.frames.debug_frame.equal", "read.frames.eh_frame.equal", "frames.debug_frame", "frames.eh_frame.absptr", "frames.eh_frame.pcrel", "eh_pe.reloc", "lists.judged",
+            "asm.read.equal", "asm.sites.visited", "asm.site.header.debug_abbrev_offset", "asm.site.addr", "asm.site.expr_addr", "asm.site.strp", "asm.site.line_strp", "asm.site.strp_sup", "asm.site.ref_addr.v2_address_sized", "asm.site.ref_addr.offset_sized", "asm.site.sec_offset", "asm.site.legacy.data4", "asm.site.legacy.data8", "asm.site.via_indirect.1", "asm.site.via_indirect.2", "asm.site.legacy.via_indirect", "asm.plain.ref4", "asm.plain.ref_sig8", "asm.plain.index_form", "asm.plain.constant", "asm.neutral", "asm.unit.debug_types", "asm.unit.v5_type", "asm.unit.v5_skeleton",
+            "asm.tables.str_offsets.equal", "asm.tables.addr.equal", "asm.tables.rnglists.equal", "asm.tables.loclists.equal", "asm.tables.aranges.equal", "asm.tables.pubnames.equal", "asm.tables.sites.visited", "asm.tables.site.str_offsets.entry", "asm.tables.site.addr.entry", "asm.tables.site.rnglists.start_end", "asm.tables.site.rnglists.base_address", "asm.tables.site.rnglists.start_length", "asm.tables.site.loclists.start_end", "asm.tables.site.loclists.base_address", "asm.tables.site.loclists.DW_OP_addr", "asm.tables.site.info.str_offsets_base", "asm.tables.site.info.addr_base", "asm.tables.site.info.rnglists_base", "asm.tables.site.info.loclists_base", "asm.tables.site.info.ranges.sec_offset", "asm.tables.site.info.location.sec_offset", "asm.tables.site.aranges.debug_info_offset", "asm.tables.site.aranges.address", "asm.tables.site.pubnames.debug_info_offset", "asm.tables.site.pubtypes.debug_info_offset",
         ],
         run,
     }
 }
+
+#[path = "c18_asm.rs"]
+mod asm_side;
 
 // ================================================================ frame tables
 
@@ -1240,4 +1248,5 @@ pub fn run(ctx: &mut Ctx) {
         let fs = gen_frames(&mut r, &spec);
         run_case(ctx, "rand", &spec, &fs);
     }
+    asm_side::run(ctx);
 }
